@@ -580,9 +580,16 @@ def run(ctx):
                          {"cfg": head, "f186": ecu.f186}, impl=r["outcome"], spec_violated=True, site="ServicesScanner.main / ECU.check_and_set_session")
         if not wild and label in ("drop-sid", "refuse", "drop-count") and r["outcome"] in ("exit0", "exit1"):
             _svc_checked_spec(ctx, ecu, sessions, skip, check, rid, r, head)
-        if not wild and sessions is not None and r["outcome"] in ("exit0", "exit1", "raised MissingResponse", "raised IllegalResponse",
-                                                                   "raised UnexpectedNegativeResponse", "raised RuntimeError"):
+        if r["outcome"] in ("exit0", "exit1", "raised MissingResponse", "raised IllegalResponse",
+                            "raised UnexpectedNegativeResponse", "raised RuntimeError"):
             _svc_wire_spec(ctx, ecu, sessions, skip, rid, reset, hooks, r, head)
+        if not rid:
+            for (k_, sid_) in sc.result:
+                if sid_ & 0x40:
+                    ctx.disagree("svc:response-id-reported-unasked", f"service id {sid_:#x} carries the response flag (bit 0x40) and --scan-response-ids is off, "
+                                 f"yet it is reported (session key {k_:#x})", {"cfg": head, "sid": sid_, "session": k_}, impl=sc.result,
+                                 spec_violated=True, site="ServicesScanner.perform_scan (response id filter)")
+                    break
         # --- metamorphic pairs on conformant, stable ECUs ---
         if inert_run and use_sessions and r["outcome"] in ("exit0", "exit1") and i % 3 == 0:
             def twin():
@@ -644,6 +651,7 @@ def run(ctx):
         reset = rng.choice([None, 1, 1, 2]) if sessions is not None else None
         r, head, impl = svc_case(fn, sessions, {}, check, rid, reset, {}, "RandomUDSServer")
         ctx.kind("svc:RandomUDSServer" + (":check" if check else "") + (":reset" if reset is not None else ""))
+        _svc_wire_spec(ctx, None, sessions, {}, rid, reset, {}, r, head)
         # soundness against the server's own service table
         if r["outcome"] in ("exit0", "exit1"):
             for (sess, sid) in r["scanner"].result:
@@ -951,8 +959,14 @@ def _svc_wire_spec(ctx, ecu, sessions, skip, rid, reset, hooks, r, head):
     never a probe of an id the skip option names for the session being scanned"""
     key = None
     hookset = {p for v in hooks.values() for part in v for p in part}
+    skip = skip if sessions is not None else {}
     for pdu, tok in r["trace"]:
-        if len(pdu) == 2 and pdu[0] == 0x10 and pdu[1] != 0:
+        if _is_probe(pdu) and (pdu[0] & 0x40) and not rid and pdu not in hookset:
+            ctx.disagree("svc:response-id-probed-unasked", f"service id {pdu[0]:#x} carries the response flag (bit 0x40) and --scan-response-ids is off, "
+                         f"yet the probe `{pdu.hex()}` was sent", {"cfg": head, "request": pdu.hex()}, impl=_reqs(r["wire"])[:400],
+                         spec_violated=True, site="ServicesScanner.perform_scan (response id filter)")
+            return
+        if sessions is not None and len(pdu) == 2 and pdu[0] == 0x10 and pdu[1] != 0:
             if pdu[1] in skip and skip[pdu[1]] is None and pdu[1] != 1:
                 ctx.disagree("svc:skipped-session-requested", f"session {pdu[1]:#x} is skipped as a whole but `{pdu.hex()}` was sent",
                              {"cfg": head, "request": pdu.hex()}, impl=_reqs(r["wire"])[:400], spec_violated=True,
